@@ -458,6 +458,13 @@ def well_typed(T, obj, bridge):
             r = well_typed(ft, c, bridge)
             if r:
                 return '%s: %s' % (n, r)
+        if 'size' in T:
+            count = 0
+            for idx in range(len(T['fields'])):
+                c = obj.getComponentByPosition(idx, instantiate=False, default=None)
+                count += 1 if (c is not None and c is not base.noValue and c.isValue) else 0
+            if not T['size'][0] <= count <= T['size'][1]:
+                return '%d members present, outside SIZE (%d..%d)' % (count, T['size'][0], T['size'][1])
         for n in T.get('present', ()):
             idx = [f[0] for f in T['fields']].index(n)
             c = obj.getComponentByPosition(idx, instantiate=False, default=None)
